@@ -79,7 +79,7 @@ def ref_decode_1(x, sizes, bin_width, bin_height, fuel):
         left, bottom, right, top = ref_place(current, w, h, bin_width, bin_height, fuel)
         if (right > bin_width) or (top > bin_height):
             bin_id = bin_id + 1
-            current = []
+            current = list()   # (a call: keeps this `if` a fork in the engine, lists of different length cannot be joined)
             left, bottom, right, top = 0, 0, w, h
         box = (k, bin_id, left, bottom, right, top)
         current.append(box)
